@@ -81,6 +81,14 @@ CHECKS = {
             "Seeded scenarios: an index of 1-3 outputs (lazily loaded directory objects or single files, shared contents) with a storage placement - one root prefix, one prefix per output over caches C1,C2 x remotes R1,R2, or a root prefix plus a nested prefix overriding one role (per-role fallback) - remotes being generic stores on the local fs or SimRemoteFS, with or without remote index; objects start in the cache the reference longest-prefix resolution designates. collect(push) -> push round 1 under upload_error / ack_lost / remote_down -> clean round 2 -> caches emptied -> fresh index -> collect -> fetch round 1 (optionally get_error / remote_down) -> clean round -> compare/apply from the cache. Oracle: each remote, then each cache, holds at least the objects of the entries that resolve to it and nothing unreachable, every object intact; pushed+failed (fetched+failed) equals the objects that had to move; checkout equals the data.",
             "No storage prefix lies strictly inside a directory-object entry. With nested prefixes the enclosing prefix's store may legitimately also receive the nested entries (collection walks each prefix's subtree), so set equality is relaxed to min <= actual <= max there and the count identity is only required for non-nested placements (and, under faults, when no object is shared by two (remote, cache) groups).",
             "deterministic simulation: seeded placement x fault-round scenarios vs reference longest-prefix resolution model", "DESIGN.md §5 C18"),
+    "C03": ("exploration",
+            "For each seeded entry set (names that are prefixes of each other, contain characters sorting below '/', non-ASCII, byte order != code-point order) the directory id is obtained along many routes that must all equal an independent canonical encoder: Tree.add in seeded permutations; build() of the materialised tree under permuted directory-listing order with checksum_jobs x large-file threshold routing files down the sequential or the pool path, where the simulated executor permutes completion order (the schedule part of the quantifier); hash-state cold, warm, and warm after touching mtimes / chmod +x at a later simulated time; from_list(as_list()) round trip; get_obj for every directory prefix and build() of that sub-directory vs the independently encoded sub-tree; near-miss entry sets must serialise to different bytes.",
+            "Well-formed keys only (parts non-empty, no '/'). Pool tasks are reordered, not interleaved.",
+            "deterministic simulation: seeded listing / insertion / pool-completion orders and state temperature vs canonical encoder", "DESIGN.md §5 C03"),
+    "C14": ("exploration",
+            "Claimed narrowly: the simulated part is the stream. A SimReader serves each seeded content (sizes around 0, 511-513 bytes, the 1 MiB read size; text, binary, CRLF straddling boundaries, text head with binary tail) in PRNG-chosen short reads; the hashing stream is consumed with PRNG-chosen read sizes directly (md5 / sha256 / blake3 / upper-case names), through fobj_md5 with several chunk sizes, and through build(upload=True) from a short-reading source filesystem onto SimRemoteFS consuming in random block sizes, where the streamed digest becomes the object's name; digests, passed-through bytes, total_read and the uploaded object are compared with hashlib on the whole content. The legacy md5-dos2unix claims (CRLF == LF for a text that fits one read, binary untouched, bytes unaltered) ride along as input sweeps over full reads.",
+            "The algorithm-name and dos2unix sub-claims are input sweeps, not what the simulation adds. total_read is only asserted for the plain stream (the legacy stream counts normalised bytes by design).",
+            "deterministic simulation of the stream seam: seeded short-read and consumer-chunk sequences vs hashlib", "DESIGN.md §5 C14"),
 }
 
 NA_FIXED = {
